@@ -189,4 +189,120 @@ theorem exportSpec_importSpec (x : Nat) (order endian : Int) (size nail : Nat) (
   exact import_export_value order endian size nail x hn
 
 
+/-! ## Faults -/
+
+/-- `out_fault_returns_0`: on an unbuffered stream whose write call containing byte `k` fails — for EVERY
+    position `k` inside what the function writes — `mpz_out_raw`, `mpz_out_str`, `mpq_out_str` and
+    `mpf_out_str` return 0 and exactly one fault fired; if `k` lies beyond the output nothing fires and the
+    functions return the byte count.  (The lemmas `write_faulty` … carry the invariant "error flag set ⇔
+    position passed `k`" through every write, i.e. induction on the position of the stream.) -/
+theorem out_fault_returns_0 (k : Nat) :
+    (∀ z : Mpz, k < (out_raw_m z).length →
+      (mpz_out_raw { failAt := some k } z).1 = 0 ∧ (mpz_out_raw { failAt := some k } z).2.fired = 1) ∧
+    (∀ base x : Int,
+      (k < mpzTextLen base x → (mpz_out_str { failAt := some k } base x).1 = 0 ∧
+          (mpz_out_str { failAt := some k } base x).2.fired = 1) ∧
+      (mpzTextLen base x ≤ k → (mpz_out_str { failAt := some k } base x).1 = mpzTextLen base x ∧
+          (mpz_out_str { failAt := some k } base x).2.fired = 0)) ∧
+    (∀ base num den : Int,
+      (k < mpqTextLen base num den → (mpq_out_str { failAt := some k } base num den).1 = 0 ∧
+          (mpq_out_str { failAt := some k } base num den).2.fired = 1) ∧
+      (mpqTextLen base num den ≤ k → (mpq_out_str { failAt := some k } base num den).1 = mpqTextLen base num den ∧
+          (mpq_out_str { failAt := some k } base num den).2.fired = 0)) ∧
+    (∀ (base : Int) (str : List Nat) (exp : Int),
+      (k < mpfTextLen base str exp → (mpf_out_str { failAt := some k } base str exp).1 = 0 ∧
+          (mpf_out_str { failAt := some k } base str exp).2.fired = 1) ∧
+      (mpfTextLen base str exp ≤ k → (mpf_out_str { failAt := some k } base str exp).1 = mpfTextLen base str exp ∧
+          (mpf_out_str { failAt := some k } base str exp).2.fired = 0)) := by
+  have fin : ∀ {s : OStream} {n : Nat}, Faulty k s → s.pos = 0 + n →
+      (k < n → s.err = true ∧ s.fired = 1) ∧ (n ≤ k → s.err = false ∧ s.fired = 0) := by
+    intro s n h hp
+    obtain ⟨_, he, hf⟩ := h
+    rw [hp, Nat.zero_add] at he hf
+    constructor
+    · intro hk; exact ⟨he.mpr hk, by rw [hf]; simp [hk]⟩
+    · intro hk
+      have : ¬ k < n := by omega
+      refine ⟨?_, by rw [hf]; simp [this]⟩
+      cases h : s.err with
+      | false => rfl
+      | true => exact absurd (he.mp h) this
+  refine ⟨fun z hk => mpz_out_raw_faulty z k hk, ?_, ?_, ?_⟩
+  · intro base x
+    obtain ⟨a1, a2, a3, a4⟩ := mpz_out_str_faulty (faulty_init k) base x
+    obtain ⟨f1, f2⟩ := fin a1 a2
+    exact ⟨fun hk => ⟨a3 (f1 hk).1, (f1 hk).2⟩, fun hk => ⟨a4 (f2 hk).1, (f2 hk).2⟩⟩
+  · intro base num den
+    obtain ⟨a1, a2, a3, a4⟩ := mpq_out_str_faulty (faulty_init k) base num den
+    obtain ⟨f1, f2⟩ := fin a1 a2
+    exact ⟨fun hk => ⟨a3 (f1 hk).1, (f1 hk).2⟩, fun hk => ⟨a4 (f2 hk).1, (f2 hk).2⟩⟩
+  · intro base str exp
+    obtain ⟨a1, a2, a3, a4⟩ := mpf_out_str_faulty (faulty_init k) base str exp
+    obtain ⟨f1, f2⟩ := fin a1 a2
+    exact ⟨fun hk => ⟨a3 (f1 hk).1, (f1 hk).2⟩, fun hk => ⟨a4 (f2 hk).1, (f2 hk).2⟩⟩
+
+/-- the byte counts used above are what the functions write and return on a healthy stream -/
+theorem out_healthy_counts (base x num den : Int) :
+    (mpz_out_str {} base x).1 = mpzTextLen base x ∧ (mpz_out_str {} base x).2.out.length = mpzTextLen base x ∧
+    (mpq_out_str {} base num den).1 = mpqTextLen base num den ∧
+    (mpq_out_str {} base num den).2.out.length = mpqTextLen base num den := by
+  obtain ⟨_, a2, a3⟩ := mpz_out_str_healthy healthy_init base x
+  obtain ⟨_, b2, b3⟩ := mpq_out_str_healthy healthy_init base num den
+  exact ⟨a3, by simpa using a2, b3, by simpa using b2⟩
+
+-- non-vacuity: "-12345" with the write of byte 3 failing, and with no byte failing
+example : (mpz_out_str { failAt := some 3 } 10 (-12345)).1 = 0 ∧ (mpz_out_str { failAt := some 3 } 10 (-12345)).2.fired = 1 ∧
+    (mpz_out_str { failAt := some 6 } 10 (-12345)).1 = 6 ∧ mpzTextLen 10 (-12345) = 6 := by decide +kernel
+example : (mpq_out_str { failAt := some 2 } 16 255 (-3)).1 = 0 ∧ (mpq_out_str {} 16 255 (-3)).2.out = [102, 102, 47, 45, 51] := by
+  decide +kernel
+example : (mpf_out_str { failAt := some 7 } 10 [45, 49, 50, 51] 3).1 = 0 ∧ (mpf_out_str {} 10 [45, 49, 50, 51] 3).1 = 8 := by
+  decide +kernel
+
+/-- `in_fault_returns_0`: (a) the byte stream written by `mpz_out_raw` for `v`, cut after ANY `k` bytes
+    short of its end, makes `mpz_inp_raw` return 0 with a well-formed destination; (b) a text stream that
+    ends before the first digit (only white space, optionally followed by a sign) makes `mpz_inp_str`
+    return 0 and leave the destination untouched, in every base.
+    (For text a cut INSIDE the digits is indistinguishable from a shorter number: `mpz_inp_str` then
+    returns the value of the digits read — see `str_stream_roundtrip_partial`; the correspondence run
+    compares the model with the library at every cut position.) -/
+theorem in_fault_returns_0 :
+    (∀ (v : Int), byteLen v.natAbs < 2 ^ 31 → ∀ (k : Nat), k < (outRawBytes v).length →
+      ∀ (x : Mpz), x.WF → ∀ (junk : Nat → Nat), (∀ i, junk i < B) →
+        (mpz_inp_raw x ⟨outRawBytes v, some k⟩ junk).1 = 0 ∧ (mpz_inp_raw x ⟨outRawBytes v, some k⟩ junk).2.1.WF) ∧
+    (∀ (x : Int) (ws : List Nat) (base : Int), (∀ c ∈ ws, isspace c = true) →
+        ((mpz_inp_str_rd x ws base).1 = 0 ∧ (mpz_inp_str_rd x ws base).2.1 = x) ∧
+        ((mpz_inp_str_rd x (ws ++ [45]) base).1 = 0 ∧ (mpz_inp_str_rd x (ws ++ [45]) base).2.1 = x)) :=
+  ⟨fun v hv k hk x hx junk hj => inp_raw_truncated v hv k hk x hx junk hj,
+   fun x ws base h => ⟨mpz_inp_str_eof x ws base h, mpz_inp_str_eof_sign x ws base h⟩⟩
+
+-- non-vacuity: every cut of the raw stream of -(2^64+5), and " \t-" as a text stream
+example : ∀ k < 13, (mpz_inp_raw ⟨1, 0, [0]⟩ ⟨outRawBytes (-18446744073709551621), some k⟩ (fun _ => 7)).1 = 0 := by
+  decide +kernel
+example : (mpz_inp_str_rd 7 [32, 9, 45] 10).1 = 0 ∧ (mpz_inp_str_rd 7 [32, 9, 49, 50] 10) = (4, 12, []) := by decide +kernel
+
+/-! ## Text streams -/
+
+/-- `str_stream_roundtrip_partial`: for every integer `x`, every documented base except 0
+    (2..62, and −36..−2 read back with |base|), whatever follows in the stream (`rest` empty or starting
+    with a character that is not a digit of the base), `mpz_inp_str` reads back exactly what
+    `mpz_out_str` wrote: same value, same byte count, and it leaves the stream at `rest`.
+    PARTIAL: the full statement also covers base 0 (output in base 10, input with prefix detection),
+    `mpq_out_str`/`mpq_inp_str` (numerator "/" denominator) and `mpf_out_str`/`mpf_inp_str`; for those
+    the models are tied to the library by the round-trip ops of the correspondence run only
+    (mpf digit generation/parsing is not modelled at all: C06/C13). -/
+theorem str_stream_roundtrip_partial (base : Int) (hb : (2 ≤ base ∧ base ≤ 62) ∨ (-36 ≤ base ∧ base ≤ -2))
+    (x dest : Int) (rest : List Nat)
+    (hrest : ∀ c, rest.head? = some c → digitValue (decide ((base.natAbs : Int) > 36)) c ≥ base.natAbs) :
+    mpz_inp_str_rd dest ((mpz_out_str {} base x).2.out ++ rest) (base.natAbs : Int)
+      = ((mpz_out_str {} base x).1, x, rest) := by
+  obtain ⟨e1, e2⟩ := mpz_out_str_text base x
+  rw [e1, e2]
+  exact mpz_text_roundtrip base hb x dest rest hrest
+
+-- non-vacuity: base 62 and base -16, followed by a newline / a slash
+example : mpz_inp_str_rd 0 ((mpz_out_str {} 62 (-123456789)).2.out ++ [10]) 62 = (6, -123456789, [10]) := by decide +kernel
+example : (mpz_out_str {} (-16) 48879).2.out = [66, 69, 69, 70] ∧
+    mpz_inp_str_rd 0 ([66, 69, 69, 70] ++ [47, 49]) 16 = (4, 48879, [47, 49]) := by decide +kernel
+
+
 end Mpir.Io
